@@ -3,10 +3,11 @@
 using namespace rg;
 
 struct Op { int kind; uint32_t h; int vtype; uint64_t raw; };   // kind 0 set 1 set_unsafe 2 get 3 sanitise (whole table)
-struct Case { TableD t; std::vector<Op> ops; };
+struct Case { TableD t; std::vector<Op> ops; int pre = 0; uint32_t prek = 0; };   // pre: the boot needed two attempts (Live::init_retry)
 static Case *g_cur = nullptr; static size_t g_upto = 0;
 static std::string ser_case(const Case &c, size_t upto) {
     std::string s = rm::ser(c.t);
+    if (c.pre) s += vp::fmt("pre %d %u\n", c.pre, c.prek);
     for (size_t i = 0; i < c.ops.size() && i < upto; i++) s += vp::fmt("op %d %u %s %llu\n", c.ops[i].kind, c.ops[i].h, rm::type_name[c.ops[i].vtype], (unsigned long long)c.ops[i].raw);
     return s;
 }
@@ -76,7 +77,9 @@ static std::string step(Live &lv, rm::Space &m, const Op &op, std::string &msg) 
 static std::string run_case(Case &c, std::string &msg, bool classify) {
     g_cur = &c; g_upto = 0;
     Live lv(c.t);
-    RegisterInit in = lv.init();
+    RegisterInit first; memset(&first, 0, sizeof first);
+    RegisterInit in = c.pre ? lv.init_retry(c.pre, c.prek, &first) : lv.init();
+    if (classify && c.pre && first.code != REG_INIT_SUCCESS) vp::cls(first.code == REG_INIT_ENTRY_IN_MEMORY_HOLE ? "init-retried-after-entry-in-hole" : first.code == REG_INIT_ENTRY_INVALID_DEFAULT ? "init-retried-after-refused-default" : "init-retried-after-other-failure");
     if (in.code != REG_INIT_SUCCESS) { msg = vp::fmt("valid table refused: code %d at %u", (int)in.code, in.pos.entry); return "init:refused"; }
     rm::Space m; model_after_init(c.t, m);
     if (lv.diff(m) >= 0) { msg = vp::fmt("storage after init differs from the model at %ld", lv.diff(m)); return "init:storage"; }
@@ -111,7 +114,7 @@ static void report(Case &c, const std::string &key, const std::string &msg) {
     size_t fail_at = g_upto;
     for (size_t keep : {(size_t)1, (size_t)2, (size_t)4, (size_t)16}) {
         if (keep >= fail_at) break;
-        Case s; s.t = c.t; s.ops.assign(c.ops.begin() + (long)(fail_at - keep), c.ops.begin() + (long)fail_at);
+        Case s; s.t = c.t; s.pre = c.pre; s.prek = c.prek; s.ops.assign(c.ops.begin() + (long)(fail_at - keep), c.ops.begin() + (long)fail_at);
         std::string m2, k2 = run_case(s, m2, false);
         if (k2 == key) { vp::fail(key, m2, ser_case(s, s.ops.size())); return; }
     }
@@ -124,13 +127,14 @@ static void run() {
     size_t ntables = (a.thorough() ? 20000 : 1500) / a.nshards, exhaustive16 = a.thorough() ? 200 : 6;
     vp::stats().rule = vp::fmt("enum/random: %zu generated valid tables per shard (1-3 areas, memory- and callback-backed, RW/RO/WO/no-write-callback/skip-defaults, 0-5 registers of all 8 types at every "
                                "alignment, constraints none/fail/min/max/range/callback, both byte orders); per register a stream of set/set_unsafe/get with values at type and constraint "
-                               "boundaries +-1, every float class incl. signalling NaNs, mistyped values, handles incl. one-past-the-end and UINT32_MAX; the same sets again after register_sanitise ran in the middle of the history; all 2^16 values for 16-bit registers on %zu tables", ntables, exhaustive16);
+                               "boundaries +-1, every float class incl. signalling NaNs, mistyped values, handles incl. one-past-the-end and UINT32_MAX; the same sets again after register_sanitise ran in the middle of the history; every fifth table boots in two attempts (register_init fails late on a wrong definition, the definition is corrected, register_init again on the same object); all 2^16 values for 16-bit registers on %zu tables", ntables, exhaustive16);
     vp::Rng rng(a.seed * 7001 + a.shard);
     for (size_t ti = 0; ti < ntables && !vp::too_many_failures(); ti++) {
         FamilyOpts big; big.max_areas = 6; big.max_size = 20; big.max_regs = 12;
         FamilyOpts wide; wide.huge = 2; wide.many = 2;   // every 40th table: an area beyond 2^16 words with registers behind offset 0x10000, or 32..70 registers
         Case c; c.t = (ti % 40 == 39) ? gen_table(rng, wide) : (ti % 8 == 7) ? gen_table(rng, big) : gen_table(rng);
         size_t nr = c.t.regs.size();
+        if (ti % 5 == 3) { c.pre = 1 + (int)rng.below(2); c.prek = (uint32_t)rng.below(64); }   // a boot that needed two attempts
         // per register: boundary values and random ones through both variants
         for (size_t h = 0; h < nr; h++) {
             const RegD &r = c.t.regs[h];
@@ -165,7 +169,7 @@ static void run() {
         // 16-bit exhaustive
         if (ti < exhaustive16)
             for (size_t h = 0; h < nr; h++) if (rm::words(c.t.regs[h].type) == 1) {
-                Case e; e.t = c.t;
+                Case e; e.t = c.t; e.pre = c.pre; e.prek = c.prek;
                 for (uint32_t v = 0; v < 65536; v++) e.ops.push_back({(int)(v & 1 ? 0 : (v % 6 == 0)), (uint32_t)h, c.t.regs[h].type, rm::canon(c.t.regs[h].type, v)});
                 std::string m2, k2 = run_case(e, m2, true);
                 if (!k2.empty()) report(e, k2, m2);
@@ -176,7 +180,7 @@ static void run() {
 static bool replay(const std::string &text) {
     Case c; std::vector<std::string> rest;
     if (!rm::parse(text, c.t, rest)) return false;
-    for (auto &l : rest) { auto w = vp::split(l); if (w.size() == 5 && w[0] == "op") { int vt = 0; for (int i = 0; i < rm::NTYPES; i++) if (w[3] == rm::type_name[i]) vt = i; c.ops.push_back({atoi(w[1].c_str()), (uint32_t)strtoul(w[2].c_str(), 0, 10), vt, strtoull(w[4].c_str(), 0, 10)}); } }
+    for (auto &l : rest) { auto w = vp::split(l); if (w.size() == 3 && w[0] == "pre") { c.pre = atoi(w[1].c_str()); c.prek = (uint32_t)strtoul(w[2].c_str(), 0, 10); } if (w.size() == 5 && w[0] == "op") { int vt = 0; for (int i = 0; i < rm::NTYPES; i++) if (w[3] == rm::type_name[i]) vt = i; c.ops.push_back({atoi(w[1].c_str()), (uint32_t)strtoul(w[2].c_str(), 0, 10), vt, strtoull(w[4].c_str(), 0, 10)}); } }
     vp::CaseScope scope([] { return g_cur ? ser_case(*g_cur, g_upto) : std::string(); });
     std::string msg, key = run_case(c, msg, false);
     if (!key.empty()) printf("[replay] key=%s %s\n", key.c_str(), msg.c_str());
